@@ -32,6 +32,8 @@ type c12Case struct {
 	// InvalidConfig: the spec carries a caller-defined boundary mime/multipart refuses; whether such a render fails is not
 	// stated by the property, but it must not panic and the count must be exact whatever it returns
 	InvalidConfig bool `json:"invalid_config,omitempty"`
+	// PerCall > 0: the destination takes at most that many bytes of each write and reports the short count with a nil error
+	PerCall int `json:"short_count_without_error_per_call,omitempty"`
 }
 
 var goMailFrame = regexp.MustCompile(`github\.com/wneessen/go-mail\.([^\s(]*(?:\([^)]*\))?[^\s(]*)\(`)
@@ -75,7 +77,7 @@ func c12Render(c c12Case) (c12Outcome, error) {
 	if err != nil {
 		return c12Outcome{}, err
 	}
-	o := c12Outcome{sink: &faultio.Sink{Limit: c.SinkLimit, Short: c.Short, Transient: c.Transient}}
+	o := c12Outcome{sink: &faultio.Sink{Limit: c.SinkLimit, Short: c.Short, Transient: c.Transient, PerCall: c.PerCall}}
 	if c.Primed {
 		func() {
 			defer func() { _ = recover() }()
@@ -128,6 +130,8 @@ func runC12Case(r *ev.Run, c c12Case) (accepted int64, failed bool) {
 		faultKind = "sink+producer"
 	case len(c.Faults) > 0:
 		faultKind = "producer"
+	case c.PerCall > 0:
+		faultKind = "short-count-nil-error"
 	case c.SinkLimit >= 0 && c.Transient:
 		faultKind = "transient-sink"
 	case c.SinkLimit >= 0 && c.Short:
@@ -286,7 +290,7 @@ func producers(s *gen.MsgSpec) []string {
 
 func runC12(r *ev.Run, rep *ev.ReplayDoc) ev.Summary {
 	sum := ev.Summary{
-		Rule: "for every shape (enumerated parts x embeds x attachments x message encoding incl. 7bit, S/MIME shapes, PGP/MIME-declared shapes, random shapes): a fault-free render, then EVERY k in [0, len(output)) with a sink that accepts exactly k bytes and fails afterwards, short-write sinks at sampled k, a destination that refuses exactly one write at every k and accepts everything after it (on a fresh message and on one that has been rendered before), every producer failing before/inside/after its data, caller-supplied ReadSeekers that fail in Read or cannot be rewound after delivering their data, fs.FS sources that refuse Open at render time, and producer+sink fault pairs; multipart shapes also with caller-defined boundaries that mime/multipart refuses (only no-panic and the exact count are judged there). non-trivial = a fault was injected; distinct by (shape, fault)",
+		Rule: "for every shape (enumerated parts x embeds x attachments x message encoding incl. 7bit, S/MIME shapes, PGP/MIME-declared shapes, random shapes): a fault-free render, then EVERY k in [0, len(output)) with a sink that accepts exactly k bytes and fails afterwards, short-write sinks at sampled k, destinations that take at most 1 / 7 / 64 / 100 / 150 / 512 bytes of a write and report the short count without an error, a destination that refuses exactly one write at every k and accepts everything after it (on a fresh message and on one that has been rendered before), every producer failing before/inside/after its data, caller-supplied ReadSeekers that fail in Read or cannot be rewound after delivering their data, fs.FS sources that refuse Open at render time, and producer+sink fault pairs; multipart shapes also with caller-defined boundaries that mime/multipart refuses (only no-panic and the exact count are judged there). non-trivial = a fault was injected; distinct by (shape, fault)",
 		Assumptions: []string{
 			"a sink fault is persistent (every write after the first refused one fails too) except in the transient-sink group, where only the write crossing k is refused",
 			"the message is rebuilt for every fault so that a failed render cannot influence the next case (repeatability after a failed render is C11)",
@@ -334,6 +338,9 @@ func runC12(r *ev.Run, rep *ev.ReplayDoc) ev.Summary {
 				continue // signed shapes: every offset of the header block, every third one after it
 			}
 			jobs = append(jobs, job{c12Case{Spec: s, SinkLimit: k, Transient: true, Primed: k%2 == 0}})
+		}
+		for _, pc := range []int{1, 7, 64, 100, 150, 512} {
+			jobs = append(jobs, job{c12Case{Spec: s, SinkLimit: -1, PerCall: pc}})
 		}
 		rng := r.Rng("c12short", si)
 		for j := 0; j < 12; j++ {
